@@ -8,7 +8,9 @@ import math
 
 import numpy as np
 
-CELL_KINDS = ["cubic", "ortho", "monoclinic", "hex60", "hex120", "truncoct", "rhombdod", "rhombdod2", "triclinic"]
+CELL_KINDS = ["cubic", "ortho", "monoclinic", "mono_alpha", "mono_gamma", "two_skew", "hex60", "hex120", "truncoct", "rhombdod", "rhombdod2",
+              "triclinic"]
+# monoclinic = only beta != 90; mono_alpha / mono_gamma = only alpha / only gamma != 90; two_skew = exactly one angle is 90
 
 
 def rng_for(*parts):
@@ -47,6 +49,14 @@ def random_cell(rng, kind=None, lo=1.5, hi=6.0, margin=0.08):
         return np.array([L, L * rng.uniform(0.4, 2.5), L * rng.uniform(0.4, 2.5)]), np.array([90.0, 90.0, 90.0])
     if kind == "monoclinic":
         return np.array([L, L * rng.uniform(0.5, 2), L * rng.uniform(0.5, 2)]), np.array([90.0, rng.uniform(50, 130), 90.0])
+    if kind == "mono_alpha":
+        return np.array([L, L * rng.uniform(0.5, 2), L * rng.uniform(0.5, 2)]), np.array([rng.uniform(50, 130), 90.0, 90.0])
+    if kind == "mono_gamma":
+        return np.array([L, L * rng.uniform(0.5, 2), L * rng.uniform(0.5, 2)]), np.array([90.0, 90.0, rng.uniform(50, 130)])
+    if kind == "two_skew":
+        ang = np.array([rng.uniform(60, 120), rng.uniform(60, 120), rng.uniform(60, 120)])
+        ang[int(rng.integers(3))] = 90.0
+        return np.array([L, L * rng.uniform(0.5, 2), L * rng.uniform(0.5, 2)]), ang
     if kind == "hex60":
         return np.array([L, L, L * rng.uniform(0.5, 2)]), np.array([90.0, 90.0, 60.0])
     if kind == "hex120":
